@@ -397,7 +397,7 @@ mod serialization {
             let dimensions = if version == Version::V1 as u64 || version == Version::V2 as u64 {
                 (0..de.read_leb128_u64()?)
                     .map(|_| {
-                        let name = String::from_utf8(de.read_vec()?)
+                        let name = String::from_utf8(crate::abe_policy::read_vec(de)?)
                             .map_err(|e| Error::ConversionFailed(e.to_string()))?;
                         let dimension = de.read::<Dimension>()?;
                         Ok((name, dimension))
